@@ -25,6 +25,7 @@ import (
 	"image/png"
 	"os"
 	"regexp"
+	"slices"
 	"strconv"
 	"strings"
 	"testing"
@@ -887,84 +888,126 @@ func (e *c19Env) l2(out *zzverif.Out, c *c19Case, costs []int, r *c19Real, line 
 			}
 		}
 	}
+	// typed[N] = how often the TEXT of the conversation makes the prompt mention image N, exactly as the runner
+	// reads it: the matches of `\[img-(\d+)\]` in the real template applied to system(<n) ++ msgs[n:] with the
+	// ORIGINAL contents (before chatPrompt writes its own tags; on an F5-repaired tree: after its sanitising) — typed
+	// tags, unfinished typed tags completed by template text, leading zeros.  chatPrompt's own tags start with `[`
+	// and are inserted at the front / in place of `[img]`, so they neither create nor destroy such a match.
+	// Finding F5: a failure is labelled iff it is EXACTLY what these typed mentions explain (the label is for
+	// known-finding matching; it never turns a failure into a pass).
+	const label = "literal image tag in message text: "
+	typed, typedKnown := e.typedMentions(c, n)
 	if literalTag {
-		// Finding F5: a message's TEXT spells `[img-N]`.  The clauses are evaluated all the same; a failure that is
-		// exactly what the typed tags explain is labelled (for known-finding matching; the label never turns a failure
-		// into a pass): tag k of a retained message's own image occurs 1 + (typed occurrences) times in the rewritten
-		// message; the prompt mentions an image that is not in the returned list and that number was typed.
 		out.Count("l2_literal_tag_in_text_evaluated")
-		const label = "literal image tag in message text: "
-		typed := func(j int, tag string) int { return strings.Count(c.msgs[j].content, tag) }
-		for k, w := range want {
-			tag := fmt.Sprintf("[img-%d]", k)
-			got := strings.Count(r.msgs[w.msg].Content, tag)
-			switch {
-			case got == 1:
-			case typed(w.msg, tag) > 0 && got == 1+typed(w.msg, tag):
-				out.L2("image-tag-msg", line, fmt.Sprintf("%stag %s occurs %d times in the rewritten message %d (once written by chatPrompt, %d typed in the text): the runner embeds image %d %d times", label, tag, got, w.msg, typed(w.msg, tag), k, got))
-			default:
-				out.L2("image-tag-msg", line, fmt.Sprintf("tag %s occurs %d times in the rewritten message %d (%d typed in the text)", tag, got, w.msg, typed(w.msg, tag)))
-			}
-		}
-		// what the runner will look up: every `[img-N]` of the prompt
-		seen := map[int]bool{}
-		for _, mt := range c19TagRe.FindAllStringSubmatch(r.prompt, -1) {
-			nn, _ := strconv.Atoi(mt[1])
-			if nn < len(want) || seen[nn] {
-				continue
-			}
-			seen[nn] = true
-			wasTyped := false
-			for j := range c.msgs {
-				if c19TagNumberTyped(c.msgs[j].content, nn) {
-					wasTyped = true
-				}
-			}
-			if wasTyped {
-				out.L2("image-tag-dangling", line, fmt.Sprintf("%sthe prompt mentions image %d but only %d images are returned (the number was typed in a message): the runner answers `invalid image index: %d`", label, nn, len(want), nn))
-			} else {
-				out.L2("image-tag-dangling", line, fmt.Sprintf("prompt mentions image %d but only %d images are expected", nn, len(want)))
-			}
-		}
-		return
 	}
+	if len(typed) > 0 {
+		out.Count("l2_typed_tag_reaches_prompt")
+	}
+	origContent := e.apiMsgs(c)
 	for k, w := range want {
 		tag := fmt.Sprintf("[img-%d]", k)
-		if got := strings.Count(r.msgs[w.msg].Content, tag); got != 1 {
-			out.L2("image-tag-msg", line, fmt.Sprintf("tag %s occurs %d times in the rewritten message %d", tag, got, w.msg))
+		got, typedHere := c19CountTag(r.msgs[w.msg].Content, k), c19CountTag(origContent[w.msg].Content, k)
+		switch {
+		case got != 1+typedHere:
+			out.L2("image-tag-msg", line, fmt.Sprintf("tag %s occurs %d times in the rewritten message %d (%d typed in its text)", tag, got, w.msg, typedHere))
+		case typedHere > 0:
+			out.L2("image-tag-msg", line, fmt.Sprintf("%stag %s occurs %d times in the rewritten message %d (once written by chatPrompt, %d typed in the text): the runner embeds image %d %d times", label, tag, got, w.msg, typedHere, k, got))
 		}
-		if generic {
+		if generic || !typedKnown {
 			continue
 		}
 		if c19Rendered(c.style, c.msgs[w.msg].role) {
-			if got := strings.Count(r.prompt, tag); got != 1 {
-				out.L2("image-tag-prompt", line, fmt.Sprintf("style=%d%s: tag %s (message %d, role %s) occurs %d times in the prompt", c.style, why(w.msg), tag, w.msg, c.msgs[w.msg].role, got))
+			switch gotP := c19CountTag(r.prompt, k); {
+			case gotP != 1+typed[k]:
+				out.L2("image-tag-prompt", line, fmt.Sprintf("style=%d%s: tag %s (message %d, role %s) occurs %d times in the prompt (%d mentions typed in the text)", c.style, why(w.msg), tag, w.msg, c.msgs[w.msg].role, gotP, typed[k]))
+			case typed[k] > 0:
+				out.L2("image-tag-prompt", line, fmt.Sprintf("%stag %s occurs %d times in the prompt (once written by chatPrompt, %d typed in the text): the runner embeds image %d %d times", label, tag, gotP, typed[k], k, gotP))
 			}
 		} else {
 			out.Count("image_on_role_not_rendered_by_template")
 		}
 	}
-	for k := len(want); k < len(want)+3; k++ {
-		if strings.Contains(r.prompt, fmt.Sprintf("[img-%d]", k)) {
-			out.L2("image-tag-dangling", line, fmt.Sprintf("prompt mentions [img-%d] but only %d images are expected", k, len(want)))
+	// mentions of images that are not in the returned list: what the runner answers `invalid image index` to
+	inPrompt := map[int]int{}
+	for _, mt := range c19TagRe.FindAllStringSubmatch(r.prompt, -1) {
+		if v, err := strconv.Atoi(mt[1]); err == nil && v >= len(want) {
+			inPrompt[v]++
 		}
 	}
+	var dangling []int
+	for v := range inPrompt {
+		dangling = append(dangling, v)
+	}
+	slices.Sort(dangling)
+	for _, v := range dangling {
+		if typedKnown && typed[v] == inPrompt[v] {
+			out.L2("image-tag-dangling", line, fmt.Sprintf("%sthe prompt mentions image %d (%d times, all typed in message texts) but only %d images are returned: the runner answers `invalid image index: %d`", label, v, inPrompt[v], len(want), v))
+		} else {
+			out.L2("image-tag-dangling", line, fmt.Sprintf("prompt mentions image %d %d times (%d typed in message texts) but only %d images are expected", v, inPrompt[v], typed[v], len(want)))
+		}
+	}
+}
+
+// specCut: the specification of the retained run, from the real cost vector: the longest suffix all of whose
+// shorter suffixes (down to two messages) fit; the latest message alone if nothing more fits.
+func (e *c19Env) specCut(c *c19Case, costs []int) int {
+	L := len(c.msgs)
+	imgTok := 768
+	if c.mllama {
+		imgTok = 1
+	}
+	n := L - 1
+	for n > 0 {
+		t := costs[n-1]
+		if c.proj != 0 {
+			for _, m := range c.msgs[n-1:] {
+				t += imgTok * len(m.imgs)
+			}
+		}
+		if t > c.limit {
+			break
+		}
+		n--
+	}
+	return n
+}
+
+// typedMentions: how often the TEXT of the conversation makes the prompt mention image N, exactly as the runner
+// reads it (see l2); ok=false if the template cannot be rendered on the specified input.
+func (e *c19Env) typedMentions(c *c19Case, n int) (map[int]int, bool) {
+	typed := map[int]int{}
+	orig := e.apiMsgs(c)
+	var in []api.Message
+	for j := 0; j < n; j++ {
+		if orig[j].Role == "system" {
+			in = append(in, orig[j])
+		}
+	}
+	in = append(in, orig[n:]...)
+	var b bytes.Buffer
+	if err := e.tmplOf(c).Execute(&b, template.Values{Messages: in, Tools: c.tools}); err != nil {
+		return typed, false
+	}
+	for _, mt := range c19TagRe.FindAllStringSubmatch(b.String(), -1) {
+		if v, err := strconv.Atoi(mt[1]); err == nil {
+			typed[v]++
+		}
+	}
+	return typed, true
+}
+
+// c19CountTag: matches of the runner's regexp whose number is k
+func c19CountTag(text string, k int) int {
+	cnt := 0
+	for _, mt := range c19TagRe.FindAllStringSubmatch(text, -1) {
+		if v, err := strconv.Atoi(mt[1]); err == nil && v == k {
+			cnt++
+		}
+	}
+	return cnt
 }
 
 var c19TagRe = regexp.MustCompile(`\[img-(\d+)\]`)
-
-var c19OpenTagRe = regexp.MustCompile(`\[img-(\d+)$`)
-
-// c19TagNumberTyped: does the text contain a literal `[img-<digits>]` whose number is nn, or end with the
-// unfinished `[img-<digits>` (which a template that prints `]` after the content completes)?
-func c19TagNumberTyped(text string, nn int) bool {
-	for _, mt := range append(c19TagRe.FindAllStringSubmatch(text, -1), c19OpenTagRe.FindAllStringSubmatch(text, -1)...) {
-		if v, err := strconv.Atoi(mt[1]); err == nil && v == nn {
-			return true
-		}
-	}
-	return false
-}
 
 var c19Words = []string{"a", "bb", "cde", "fgh", "ij", "kl", "abcdefghijkl", "I-I'm", "wager.", "{{x}}", "]", "[", "[im", "g]", "|", "S<", ">"}
 
@@ -1161,20 +1204,44 @@ var c19Fixed = []c19Case{
 // emitPair records what chatPrompt hands to the runner (prompt + image ids) for the runner-side
 // driver (harness/overlay/runner_ollamarunner/zz_verif_c19_test.go), which feeds it to the real
 // `inputs`.
-func (e *c19Env) emitPair(c *c19Case, r *c19Real) {
+func (e *c19Env) emitPair(c *c19Case, r *c19Real, costs []int) {
 	if e.pairs == nil || e.npairs >= e.maxPairs {
 		return
 	}
 	e.npairs++
+	// H1: no message text contains `[img-`.  H0[S]/<typed>: some text does; <typed> = the image numbers the TEXT makes the
+	// prompt mention, with multiplicity, exactly as the runner reads them (typedMentions; `-` none, `?` unknown);
+	// S: the template prints every message's content exactly once, so "each returned image is embedded exactly
+	// once + its typed mentions" can be evaluated on the runner side.
 	h := "H1"
 	for _, m := range c.msgs {
 		if strings.Contains(m.content, "[img-") {
 			h = "H0"
-			// S: the template prints every message's content exactly once, so "each returned image is embedded
-			// exactly once" can be evaluated on the runner side
-			if c.style == c19StyleMessages || c.style == c19StyleInPlace || c.style == c19StyleTools {
-				h = "H0S"
+		}
+	}
+	if h == "H0" {
+		if c.style == c19StyleMessages || c.style == c19StyleInPlace || c.style == c19StyleTools {
+			h = "H0S"
+		}
+		typed, ok := e.typedMentions(c, e.specCut(c, costs))
+		switch {
+		case !ok:
+			h += "/?"
+		case len(typed) == 0:
+			h += "/-"
+		default:
+			var nums []int
+			for v, k := range typed {
+				for ; k > 0; k-- {
+					nums = append(nums, v)
+				}
 			}
+			slices.Sort(nums)
+			var ps []string
+			for _, v := range nums {
+				ps = append(ps, strconv.Itoa(v))
+			}
+			h += "/" + strings.Join(ps, ".")
 		}
 	}
 	fmt.Fprintf(e.pairs, "%s %s %d", h, zzverif.Hex([]byte(r.prompt)), len(r.images))
@@ -1246,7 +1313,7 @@ func (e *c19Env) runCase(out *zzverif.Out, c *c19Case) {
 		if len(r.images) > 0 {
 			out.Count("ok_with_images_returned")
 		}
-		e.emitPair(c, &r)
+		e.emitPair(c, &r, costs)
 	}
 	e.branches(out, c, costs, &r)
 	e.l2(out, c, costs, &r, line)
